@@ -108,7 +108,7 @@ theorem C06_reverse_periodic_index {b : Basis K} (hv : b.Valid) (hper : 0 ≤ b.
   have : b.nAll - 1 = b.numFunctions + b.periodic.toNat := by omega
   rw [this]
 
-/-- The periodic quadratic-free minimal instance: order 2, `C^0`-periodic, two control points. -/
+/-- The minimal periodic instance: order 2 (piecewise linear), `C^0`-periodic, two control points. -/
 def C06_exPer : Basis ℚ := ⟨2, #[-1, 0, 1, 2, 3], 0⟩
 
 theorem C06_exPer_valid : C06_exPer.Valid where
@@ -128,7 +128,7 @@ theorem C06_exPer_valid : C06_exPer.Valid where
     have hi'' : i < 3 := by omega
     interval_cases i <;> norm_num [Basis.kn, Basis.start, Basis.stop, Basis.numFunctions, C06_exPer]
 
-/-- The curve `C06_exObj` on it with control points `0, 1` (one component). -/
+/-- The periodic curve on `C06_exPer` with control points `0, 1` (one component). -/
 def C06_exObj : Obj ℚ := { bases := #[C06_exPer], cps := ⟨[2, 1], #[0, 1]⟩, rational := false }
 
 /-- **"Flip only" is refuted.**  The model of the code's `reverse` turns the control points
